@@ -24,6 +24,7 @@ func init() {
 			{"C11/client-transports", "websocket conn + transport, legacy IN conn, and legacy OUT transport closed on all exits", c11ClientTransports},
 			{"C11/registry", "RegisterTunnel paired with RemoveTunnel of the same tunnel on all exits", c11Registry},
 			{"C11/gauges", "every gauge Inc paired with Dec of the same gauge on all exits", c11Gauges},
+			{"C11/relay-blocking", "the relay goroutine blocks only in operations that closing the connections ends: no channel send whose receiver can have gone", c11RelayBlocking},
 			{"C11/framer-bounded", "unframeable bytes end the packet loop: no unbounded wait for a client-declared size", c11FramerBounded},
 		},
 	})
@@ -126,15 +127,17 @@ func c11Backend(c *Ctx) {
 	rule := "C11/backend"
 	fn := c.Fn("cmd/rdpgw/protocol", "Processor.Process")
 	rwcF := c.FieldVar("cmd/rdpgw/protocol", "Tunnel", "rwc")
-	var dials []*ssa.Call
+	// the dial (a library dial, or a helper that returns the dialled connection with the dial's
+	// error) in the loop itself; otherwise in a helper of the loop that dials and records the result
+	dials := c.dialLikeIn(fn)
 	dialFn := fn
-	for _, sf := range scopeFuncs(fn, 1) {
-		if sf.Parent() != nil || sf != fn && !c.onlyCalledFrom(sf, fn, 0) {
-			continue
-		}
-		for _, ci := range callsIn(sf) {
-			if n := calleeName(ci); strings.HasPrefix(n, "net.Dial") {
-				dials = append(dials, ci.(*ssa.Call))
+	if len(dials) == 0 {
+		for _, sf := range scopeFuncs(fn, 1) {
+			if sf.Parent() != nil || sf == fn || !c.onlyCalledFrom(sf, fn, 0) {
+				continue
+			}
+			if ds := c.dialLikeIn(sf); len(ds) > 0 {
+				dials = append(dials, ds...)
 				dialFn = sf
 			}
 		}
@@ -565,6 +568,35 @@ func c11FramerBounded(c *Ctx) {
 	}
 	if rp == nil {
 		c.Missing("ReadPacket call in readMessage")
+	}
+	// a transport read error leaves the framer: from the edge on which ReadPacket's error is
+	// non-nil, ReadPacket is not reached again (an error that is skipped keeps a dead or
+	// unframeable connection's tunnel, backend and registry entry alive for ever)
+	{
+		rpErr := resultOf(rp, errIndex(rp))
+		tested, again := false, false
+		for _, b := range fn.Blocks {
+			if len(b.Instrs) == 0 || rpErr == nil {
+				continue
+			}
+			ifi, ok := b.Instrs[len(b.Instrs)-1].(*ssa.If)
+			if !ok || !rp.Block().Dominates(b) {
+				continue
+			}
+			for i, succ := range b.Succs {
+				if GNeq(isVal(rpErr), anyNil)(ifi.Cond, i == 0) {
+					tested = true
+					if reachFromWithoutMarkerAvoiding(succ, rp, noMarker, nil) {
+						again = true
+					}
+				}
+			}
+		}
+		if !tested {
+			c.Bad(rule, "readMessage read-error", rp.Pos(), "the error of Transport.ReadPacket is not tested in readMessage")
+		} else {
+			c.Check(!again, rule, "readMessage read-error", rp.Pos(), "a failed Transport.ReadPacket ends readMessage: the read is not retried", "after Transport.ReadPacket failed readMessage reads again: a transport whose error is sticky (chunked reader, closed websocket) makes the packet loop spin and nothing the tunnel holds is released")
+		}
 	}
 	n := 0
 	for _, ci := range callsTo(fn, protoPkg+".readHeader") {
